@@ -11,11 +11,11 @@ ROLES_PLAIN = [':ARG0', ':ARG1', ':ARG2', ':mod', ':domain', ':op1', ':op2', ':o
                ':x-of', ':u-of', ':w-of', ':y-z-of', ':prep-out-of']
 SYMS = ['-', '+', 'foo', 'bar', '7', '-1.5', '0', '0.0', '1e3', 'x', 'imperative', 'A',
         'b2', '\u03b5\u03c0', 'a.b', 'c,d', '^', "it's", '\u00a0', 'x\u2028y', '00', 'x\u3000y',
-        '\u0085', 'p#q', 'mi\ufeffkh', 'z\u200bw']
+        '\u0085', 'p#q', 'mi\ufeffkh', 'z\u200bw', 'cafe\u0301', '\u212bngstr']
 STRS = ['"x"', '"a b"', '"(p)"', '"a~b"', '"q/:r"', '"\\"q\\""', '"#h"', '""', '"\\\\"',
-        '"~1"', '"a\\nb"', '"\u00e9\u3000"', '"a ~e.1"', '"\u2028"', '"\tq\x0b"', '"a\ufeffb"']
+        '"~1"', '"a\\nb"', '"\u00e9\u3000"', '"a ~e.1"', '"\u2028"', '"\tq\x0b"', '"a\ufeffb"', '"o\u031b\u0309 \u212a"']
 CONCEPTS = ['alpha', 'beta', 'bark-01', 'i', 'a', 'b', 'have-mod-91', '"str"', '7', 'A',
-            '\u03b5', '"~x"', '-', 'x1', '_']
+            '\u03b5', '"~x"', '-', 'x1', '_', 'e\u0301t\u00e9']
 VARPOOL = ['a', 'b', 'c', 'd', 'e', 'f', 'g', 'h', 'i', 'x1', 'x2', '_', '_2', 'i2', 'a2',
            'v\u00e9', 'n0', 'zz', '10', '2.5', '-1', '_3', '_5']
 # ('10', '2.5', '-1' are legal variables - Variable <- Symbol - that look like numbers;
